@@ -35,4 +35,12 @@ let hdoc_line line =
     (match read_heredoc (nat_of_int (List.length text + 2)) (dash = "1") delim text [] with
      | Some ((body, dline), rest) -> Printf.sprintf "ok %s %s %d" (enc body) (enc dline) (String.length (string_of_hex (enc rest)))
      | None -> "err")
+  | [dash; d; t; "u"] ->
+    (* unquoted delimiter: the expanding reader (Lex/HeredocExp.v) *)
+    let delim = runes_of_string (string_of_hex d) and text = runes_of_string (string_of_hex t) in
+    let enc l = hexb (List.concat_map (fun r -> encode_rune r) l) in
+    (match read_exp (nat_of_int (List.length text + 2)) (dash = "1") delim text [] [] with
+     | HOk (body, dline, rest) -> Printf.sprintf "ok %s %s %d" (enc body) (enc dline) (String.length (string_of_hex (enc rest)))
+     | HErr -> "err"
+     | HUnmodelled -> "unmodelled")
   | _ -> failwith "hdoc: bad case"
